@@ -96,43 +96,40 @@ func (s *sequencedSlots) Pop(seq int) (Slot, bool) {
 // must be discarded by ByteBuffer.Discard before calling PopRange again.
 // TODO: offsetting is a bit tricky here.
 func (s *sequencedSlots) PopRange(seq, n int) (poppedSlots []Slot) {
-	if n > len(s.slots) {
-		n = len(s.slots)
-	}
-
-	if n == 0 {
-		return nil
-	}
-
 	ix := sort.Search(len(s.slots), func(i int) bool {
 		return s.slots[i].seq >= seq
 	})
-	if ix < len(s.slots) {
-		// PopRange(0, 2) on seq[0, 1, 2, 3] => [2, 3]
-		// PopRange(0, 2) on seq[1, 2, 3] => [2, 3]
-		//   - here we want to pop 2 starting from sequence number 0
-		//   - there is no sequence number zero, and the closest one is 1
-		//   - hence we consider 0 already popped, and we must only pop 1 now
-		//   - that's what toPop accounts for
-		toPop := n - (s.slots[ix].seq - seq)
 
-		poppedSlots = util.ExtendSlice(poppedSlots, toPop)
-		poppedSlots = poppedSlots[:0]
-
-		lastSeq := -1
-		for i := 0; i < toPop; i++ {
-			maybePoppedSlot := s.slots[ix+i]
-			if lastSeq == -1 || maybePoppedSlot.seq-lastSeq == 1 {
-				lastSeq = maybePoppedSlot.seq
-				poppedSlots = append(poppedSlots, maybePoppedSlot.Slot)
-			} else {
-				break
-			}
+	// PopRange(0, 2) on seq[0, 1, 2, 3] => [2, 3]
+	// PopRange(0, 2) on seq[1, 2, 3] => [2, 3]
+	//   - here we want to pop 2 starting from sequence number 0
+	//   - there is no sequence number zero, and the closest one is 1
+	//   - hence we consider 0 already popped, and we must only pop 1 now
+	//
+	// toPop counts the slots from ix on that have consecutive sequence numbers
+	// below seq + n. Only those are popped.
+	toPop := 0
+	for ix+toPop < len(s.slots) {
+		cur := s.slots[ix+toPop].seq
+		if cur-seq >= n {
+			break
 		}
-		s.slots = append(s.slots[:ix], s.slots[ix+toPop:]...)
-		return poppedSlots
+		if toPop > 0 && cur-s.slots[ix+toPop-1].seq != 1 {
+			break
+		}
+		toPop++
 	}
-	return nil
+	if toPop == 0 {
+		return nil
+	}
+
+	poppedSlots = util.ExtendSlice(poppedSlots, toPop)
+	poppedSlots = poppedSlots[:0]
+	for i := 0; i < toPop; i++ {
+		poppedSlots = append(poppedSlots, s.slots[ix+i].Slot)
+	}
+	s.slots = append(s.slots[:ix], s.slots[ix+toPop:]...)
+	return poppedSlots
 }
 
 // Size ...
